@@ -204,6 +204,15 @@ func c08Frags(r *plan.Rng) []c08Frag {
 			"inimm.list[0] = ins",
 			"inimarr[0][0] = inp + 1",
 			"r9i := inimm.limits.n + inimarr[0][0] + len(inimm.list[0])"}},
+		{name: "variadicInPlace", lines: []string{
+			"vf := func(a, ...xs) {",
+			"	splice(xs, 0, 0, a, inp)",
+			"	return len(xs) + xs[1]",
+			"}",
+			"r15 := vf(1) + vf(2)",
+			"r15b := vf(1, 2, 3) + vf(0, []...)",
+			"r15x := func(...xs) { return xs }()",
+			"r15y := append(r15x, ins)"}},
 		{name: "format", lines: []string{
 			"r10 := format(\"%05d|%s|%v|%q|%x\", inp, ins, [1, 2], ins, inp)",
 			"r10b := format(\"%8.3f|%-6d|%c\", float(inp) / 3.0, inp, 'x' + inp % 3)"}},
@@ -281,19 +290,85 @@ func genC08(r *plan.Rng) *plan.Plan {
 	if r.Chance(1, 3) {
 		return genC08Single(r)
 	}
+	return genC08Clones(r, false)
+}
+
+// Pool-sharing episodes (job property "C08P", run in the ordinary build): the
+// clones format values through host objects whose String method is a scheduling
+// point, so one thread can be in the middle of a format call while another
+// performs whole ones, and nothing empties the pools in between. The maximum
+// string length is small and one fragment exceeds it for some inputs: an object
+// that is handed back to a pool on a failure path stays there for later calls.
+var c08PoolFrags = []c08Frag{
+	{name: "nestedFormat", lines: []string{
+		"sf1 := format(\"%v|%s|%d\", stz, ins, inp)",
+		"sf2 := format(\"%d:%v:%v\", inp, [stz2, ins], stz)",
+		"sf3 := string(stz2) + format(\"[%s]\", stz)",
+		"sf4 := format(\"%5d|%-8s|%x|%q\", inp, ins, inp + 255, ins)"}},
+	{name: "failFormatLimit", lines: []string{
+		"lf := \"\"",
+		"if inp % 3 == 1 {",
+		"	lf = format(\"%0300d|%v\", inp, stz)",
+		"}"}},
+}
+
+func genC08Pool(r *plan.Rng) *plan.Plan {
+	p := genC08Clones(r, true)
+	p.Cfg.Race = false
+	p.Cfg.PoolShare = true
+	p.Cfg.MaxStringLen = 160
+	return p
+}
+
+func genC08Clones(r *plan.Rng, pool bool) *plan.Plan {
 	p := &plan.Plan{Shape: "clones"}
 	p.Cfg.Race = true
 	p.Cfg.MaxDecisions = 60000
 	src, mods, names := c08Program(r)
+	inputs := c08Inputs(r, 0)
+	if pool {
+		rp := r.Fork(11)
+		var pre []string
+		for _, f := range c08PoolFrags {
+			if strings.HasPrefix(f.name, "fail") {
+				src += lines(f.lines...)
+			} else {
+				pre = append(pre, f.lines...)
+			}
+			names = append(names, f.name)
+		}
+		src = lines(pre...) + src
+		inputs = append(inputs,
+			plan.Input{Name: "stz", Val: plan.Value{T: "obj:stringer", I: int64(rp.Range(1, 9))}},
+			plan.Input{Name: "stz2", Val: plan.Value{T: "obj:stringer", I: int64(rp.Range(1, 9))}})
+	}
+	// a closure that survives from one run to the next in a host-declared variable:
+	// after Clone, the original and its clones call "the same" counter
+	kept := !pool && r.Fork(13).Chance(1, 25)
+	if kept {
+		src = lines(
+			"if !keep {",
+			"	keep = func() {",
+			"		n := 0",
+			"		return func() {",
+			"			n += 1",
+			"			return n",
+			"		}",
+			"	}()",
+			"}",
+			"r14 := keep() + keep()") + src
+		names = append(names, "keptClosure")
+		inputs = append(inputs, plan.Input{Name: "keep", Val: plan.Nil()})
+	}
 	note(p, "frags", strings.Join(names, "+"))
 	c08Modules(p, mods)
-	sc := plan.Script{Src: src, Modules: mods, Inputs: c08Inputs(r, 0)}
+	sc := plan.Script{Src: src, Modules: mods, Inputs: inputs}
 	p.Scripts = []plan.Script{sc}
 
 	k := r.Range(2, 5)
 	p.Slots = k + 2
 	setup := []plan.Op{{Kind: plan.OpCompile, Script: 0, Dst: 0}}
-	ranOrig := r.Chance(1, 3)
+	ranOrig := r.Chance(1, 3) || kept
 	if ranOrig {
 		setup = append(setup, plan.Op{Kind: plan.OpRun, Obj: 0})
 		note(p, "origRanFirst", "1")
